@@ -7,6 +7,7 @@ import (
 	"io"
 	"net"
 	"net/http"
+	"os"
 	"strconv"
 	"strings"
 	"sync"
@@ -15,6 +16,7 @@ import (
 	"time"
 
 	v2 "mosn.io/mosn/pkg/config/v2"
+	"mosn.io/mosn/pkg/log"
 
 	"verif/ev"
 	"verif/rig/codec"
@@ -743,6 +745,10 @@ func runScenario(sc *Scenario) (res *result) {
 			return
 		}
 		time.Sleep(500 * time.Millisecond)
+	}
+	if os.Getenv("C03_MOSN_LOG") != "" { // manual investigation: let MOSN's error/alert log lines through (to mosn-default.log in the run dir)
+		log.DefaultLogger.SetLogLevel(log.ERROR)
+		log.Proxy.SetLogLevel(log.ERROR)
 	}
 
 	cl, err = dialClient(sc.Proto, cs.Addr)
